@@ -211,7 +211,8 @@ private:
                 }
                 else if( ch == EOF || !isspace( ch ))
                 {
-                    return;
+                    // the raster ends (or holds something that is no number) before the row is complete
+                    io_error( "pnm: unexpected end of the raster." );
                 }
             }
 
